@@ -281,6 +281,11 @@ def _build(fmt, rs, A, dt, rdt, kind):
                 else:
                     d2, a2, n2 = ref.tr_dense(cores2)
                 ctx.count("clause/core-replaced")
+                ranks2 = list(ranks)
+                if tuple(obj2.shape) != tuple(shp[:k] + [newsize] + shp[k + 1:]) or tuple(obj2.rank) != tuple(ranks2):
+                    ctx.violation("C03:%s:wrapper-shape-rank:core-replaced" % fmt, "%s wrapper after core %d was replaced (mode size %d -> %d) reports shape %s rank %s" % (
+                        fmt, k, shp[k], newsize, tuple(obj2.shape), tuple(obj2.rank)), dict(desc, cls="core-replaced"))
+                    return
                 try:
                     _views(ctx, fmt, be, dict(desc, cls="core-replaced"), d2, a2, n2, eps, obj2.to_tensor, obj2.to_unfolding, obj2.to_vec)
                 except (ValueError, IndexError) as e:
